@@ -522,6 +522,8 @@ class Program:
         body_named = p_stmts(self.body, 1)
         body_unnamed = [l + " nil" if l.strip() == "return" else l for l in p_stmts(self.body, 1)]
         lines = []
+        if getattr(self, "doc", None) and form == "func":
+            lines.append(self.doc)  # a doc comment on the generator declaration
         if form == "func":
             if self.named_result:
                 lines.append("func %s%s (_ Iter[%s]) {" % (self.name, SIG, T))
@@ -2158,7 +2160,7 @@ C13_BODIES = [
     ("immediate_literal_call", "v := func() int { return dbl@(a) }()\nw := func() int { return fnv@(b) }()\nreturn (v << 4) ^ w"),
     ("native_range_array_by_value_mutated", "arr := [4]int{a, b, 1, 2}\nfor i, v := range arr {\n\tarr[(i+1)&3] += v\n}\nreturn arr[0] ^ (arr[1] << 1) ^ (arr[2] << 2) ^ (arr[3] << 3)"),
     ("native_range_var_captured", "var fs []func() int\nfor i, v := range []int{a, b, a + b} {\n\tfs = append(fs, func() int { return v + i })\n}\nr := 0\nfor _, f := range fs {\n\tr = r*16 + f()\n}\nreturn r"),
-    ("native_range_string_map_chan", "r := 0\nfor i, c := range \"héé\" {\n\tr += i*int(c)\n}\nm := map[int]int{1: a}\nfor k, v := range m {\n\tr ^= k + v\n\tm[2] = b\n}\nch := make(chan int, 2)\nch <- a\nch <- b\nclose(ch)\nfor v := range ch {\n\tr = r*2 + v + len(ch)\n}\nreturn r"),
+    ("native_range_string_map_chan", "r := 0\nfor i, c := range \"héé\" {\n\tr += i*int(c)\n}\nm := map[int]int{1: a}\nfor k, v := range m {\n\tr ^= k + v\n\tm[1] = b\n}\nch := make(chan int, 2)\nch <- a\nch <- b\nclose(ch)\nfor v := range ch {\n\tr = r*2 + v + len(ch)\n}\nreturn r"),
     ("labelled_break_out_of_condless_loop", "r := 0\nL:\n\tfor {\n\t\tswitch {\n\t\tcase r > a&3:\n\t\t\tbreak L\n\t\t}\n\t\tr++\n\t}\n\tr += 100\n\tif g1 {\n\t\tr += b\n\t}\n\treturn r"),
     ("labelled_continue_nested_loops", "r := 0\nouter:\n\tfor i := 0; i < 3; i++ {\n\t\tfor j := 0; ; j++ {\n\t\t\tif j > i {\n\t\t\t\tcontinue outer\n\t\t\t}\n\t\t\tr += j + a\n\t\t}\n\t}\n\tr ^= b\n\treturn r"),
     ("closure_capture", "s := 0\nadd := func(d int) { s += d }\nget := func() int { return s }\nadd(a)\nr := get()\nadd(b)\nreturn (r << 4) ^ get()"),
